@@ -79,6 +79,7 @@ def run(prog, tier, extra=None):
     res = Result("C17", "other")
     R1 = res.rule("C17.who-may-mark", "only the authenticated handler (and the local STUN API) marks a peer connected / records its key / indexes it by key", floor=6)
     R2 = res.rule("C17.verify-before-mark", "marking is dominated by the true edge of verify(challenge_for_peer, response.signature, response.public_key)", floor=2)
+    R4 = res.rule("C17.disconnect-clears-challenge", "disconnecting a peer always clears its outstanding challenge", floor=1)
     R3 = res.rule("C17.once", "a used challenge is cleared on every Ok path; issued challenges are fresh random bytes", floor=3)
 
     marks = mark_sites(prog)
@@ -193,6 +194,26 @@ def run(prog, tier, extra=None):
                     res.sample({"rule": R3, "fn": fn, "site": fb.loc(bb), "challenge": show(e)[:100], "verdict": "fresh random challenge"})
         if n == 0:
             res.add(Finding(R3, "C17.once|%s|no-challenge" % fn, "%s does not record the challenge it issues" % fn, fb.loc(0)))
+
+    # R4: a challenge does not survive the connection it was issued on: every path through Peer::mark_as_disconnected clears it
+    md = prog.body(PEER + "mark_as_disconnected")
+    if md is None:
+        raise LookupError("Peer::mark_as_disconnected not found")
+    chm = Chaser(md)
+    clears = set()
+    for bb, blk in enumerate(md.blocks):
+        for st in blk["s"]:
+            if st[0] == "=" and place_has_field(st[1], "peer::Peer", "challenge_for_peer") is not None:
+                e = chm.rvalue(st[2], 0)
+                if (e[0] == "agg" and e[1][0] == "adt" and e[1][2] == "None") or (e[0] == "const" and "None" in (e[2] or "")):
+                    clears.add(bb)
+    res.instance(R4)
+    p = md.find_path(0, md.return_blocks(), blocked=clears)
+    if not clears or p:
+        res.add(Finding(R4, "C17.disconnect-clears-challenge", "Peer::mark_as_disconnected can return without clearing challenge_for_peer: a challenge issued on one connection "
+                        "stays valid for a response replayed on the next connection of the same peer object", md.loc((p or [0])[-1])))
+    else:
+        res.sample({"rule": R4, "cleared_at": [md.loc(x) for x in clears], "verdict": "every path clears the outstanding challenge"})
 
     res.explanation = (
         "Decides the shape-level part of authentication: who may mark a peer connected / record its key / index it by key, that in the one handler that does, both "
